@@ -41,6 +41,10 @@ def rand_config2d(rng, per=None, nx=None, ny=None, smooth=True, bcs=None):
                             b.update(ptot=float(np.max(p) * rng.uniform(1.2, 2.0)), rttot=float(np.mean(p / r) * rng.uniform(1.0, 1.5)))
                         if nm in ('insup', 'outsub'):
                             b['p'] = float(np.mean(p) * rng.uniform(0.7, 1.1))
+                        if nm == 'insup' and rng.random() < 0.5:
+                            # oblique inflow direction pointing into the domain
+                            base = {'left': 0.0, 'right': 180.0, 'bottom': 90.0, 'top': -90.0}[t]
+                            b['angle'] = float(base + rng.choice([0.0, 30.0, -20.0, 45.0, 60.0, -37.5]))
                         bcs[t] = b
     cfg['bc'] = bcs
     return cfg
